@@ -15,7 +15,7 @@ LEVEL = "fault_enumeration"
 RULE = ("Each case runs a seeded history of up to 40 (thorough 100) operations on a real Durq and a real Dusq injected through a real "
         "Hold backed by a real Subery (LMDB in a scratch directory): push, pull, extend/update (with duplicates inside the batch), "
         "remove (Dusq), clear, count/len/iteration, over a pool of six registered values (Bag(0..2), IceBag(0..2)) so duplicates are "
-        "frequent, and 'reopen' (close the store, open a new Subery on the same path, inject fresh containers under the same keys). "
+        "frequent, and 'resync' (forced re-read of the durable copy into the live container) and 'reopen' (close the store, open a new Subery on the same path, inject fresh containers under the same keys). "
         "Models: deque and insertion-ordered set. Oracle after every operation: return value, list(container) and the durable copy "
         "read straight from the sub-database equal the model; after reopen the fresh containers equal the model. One case in four "
         "is a crash case: the history runs in a forked child that acknowledges each finished operation over a pipe and dies by "
@@ -48,9 +48,9 @@ def gen_history(tape, maxops):
     for _ in range(n):
         which = tape.pick("which", ["q", "s"])
         if which == "q":
-            op = ["push", "pull", "extend", "clear", "count", "reopen"][tape.weighted("qop", [6, 5, 3, 1, 1, 1])]
+            op = ["push", "pull", "extend", "clear", "count", "reopen", "resync"][tape.weighted("qop", [6, 5, 3, 1, 1, 1, 1])]
         else:
-            op = ["push", "pull", "update", "remove", "clear", "reopen"][tape.weighted("sop", [6, 4, 3, 3, 1, 1])]
+            op = ["push", "pull", "update", "remove", "clear", "reopen", "resync"][tape.weighted("sop", [6, 4, 3, 3, 1, 1, 1])]
         arg = None
         if op in ("push", "remove", "count"):
             arg = POOL[tape.draw("val", len(POOL))]
@@ -83,6 +83,8 @@ class World:
 
 def apply_model(mq, ms, which, op, arg):
     """returns expected return value (or a marker)"""
+    if op == "resync":
+        return True       # forced re-read of the durable copy into the live container: content unchanged
     if which == "q":
         if op == "push":
             mq.append(arg)
@@ -142,6 +144,8 @@ def apply_real(w, which, op, arg):
         return c.count(mk(arg))
     if op == "remove":
         return c.remove(mk(arg))
+    if op == "resync":
+        return c.sync(force=True)
     raise HarnessError(op)
 
 
